@@ -640,7 +640,7 @@ func (v Value) export() interface{} {
 // exportSeen is export with the chain of objects being exported: an object
 // that contains itself cannot be represented and raises a TypeError (as
 // JSON.stringify does) instead of recursing without bound.
-func (v Value) exportSeen(seen []*object) interface{} {
+func (v Value) exportSeen(seen map[*object]struct{}) interface{} {
 	switch v.kind {
 	case valueUndefined:
 		return nil
@@ -657,12 +657,16 @@ func (v Value) exportSeen(seen []*object) interface{} {
 		}
 	case valueObject:
 		obj := v.object()
-		for _, outer := range seen {
-			if outer == obj {
-				panic(obj.runtime.panicTypeError("Converting circular structure to a Go value"))
-			}
+		// seen is the set of objects on the path from the root (one shared set:
+		// a slice per level made a walk of depth n cost n*n/2 time and memory)
+		if _, onPath := seen[obj]; onPath {
+			panic(obj.runtime.panicTypeError("Converting circular structure to a Go value"))
 		}
-		seen = append(seen, obj)
+		if seen == nil {
+			seen = map[*object]struct{}{}
+		}
+		seen[obj] = struct{}{}
+		defer delete(seen, obj)
 		switch value := obj.value.(type) {
 		case *goStructObject:
 			return value.value.Interface()
